@@ -111,7 +111,8 @@ class RealWorld:
         self.saved_max = ssnet.MAX_CHANNEL
         ssnet.MAX_CHANNEL = maxch
         self.saved_time = client.time.time
-        client.time.time = lambda: 1000.0
+        self.now = 1000.0
+        client.time.time = lambda: self.now
         client.dnsreqs.clear()
         client.udp_by_src.clear()
         self.mux = ssnet.Mux(DummyFile(), DummyFile())
@@ -152,7 +153,7 @@ class RealWorld:
                 return 'discarded' if s.closed else 'discarded-not-closed'
             p = self.handlers[-1]
             chan = p.wrap2.channel
-            self.flows[flow] = dict(kind='tcp', chan=chan, open=True, wrap=p.wrap2, proxy=p)
+            self.flows[flow] = dict(kind='tcp', chan=chan, open=True, wrap=p.wrap2, proxy=p, deadline=None)
         elif kind == 'dns':
             before = set(c.dnsreqs)
             self.method.next_udp = (self.src_of(flow), ('192.0.2.53', 53), b'q%d' % flow)
@@ -161,7 +162,7 @@ class RealWorld:
             if not new:
                 return 'discarded'
             chan = new.pop()
-            self.flows[flow] = dict(kind='dns', chan=chan, open=True, src=self.src_of(flow))
+            self.flows[flow] = dict(kind='dns', chan=chan, open=True, src=self.src_of(flow), deadline=self.now + 30)
         else:
             before = set(c.udp_by_src)
             self.method.next_udp = (self.src_of(flow), ('192.0.2.9', 9), b'u%d' % flow)
@@ -170,8 +171,14 @@ class RealWorld:
             if not new:
                 return 'discarded'
             chan = c.udp_by_src[new.pop()][0]
-            self.flows[flow] = dict(kind='udp', chan=chan, open=True, src=self.src_of(flow))
+            self.flows[flow] = dict(kind='udp', chan=chan, open=True, src=self.src_of(flow), deadline=self.now + 30)
         self.nflow += 1
+        # the accept handlers end with expire_connections(now): overdue DNS/UDP flows (deadline < now) are swept
+        self.swept = []
+        for n, f in self.flows.items():
+            if f['open'] and f['deadline'] is not None and f['deadline'] < self.now and n != flow:
+                f['open'] = False
+                self.swept.append(f['chan'])
         return 'opened %s %d' % (chan, flow)
 
     def find_open(self, chan):
@@ -185,10 +192,10 @@ class RealWorld:
                 f['wrap'].setnowrite()
             elif f['kind'] == 'dns':
                 c.dnsreqs[chan] = 0
-                c.expire_connections(1000.0, self.mux)
+                c.expire_connections(1.0, self.mux)
             else:
                 c.udp_by_src[f['src']] = (chan, 0)
-                c.expire_connections(1000.0, self.mux)
+                c.expire_connections(1.0, self.mux)
             f['open'] = False
         return 'closed'
 
@@ -296,15 +303,27 @@ def run(ctx):
             lines_in = ['new %d %d %d' % (maxch, probes, chani)]
             lines_out = ['ok']
             nontriv = False
+            rops = []
             try:
                 for op in ops:
                     kind, arg = op
+                    if kind == 'tick':
+                        w.now += arg
+                        rops.append('tick %s' % arg)
+                        continue
+                    w.swept = []
                     try:
                         if kind == 'open':
                             o = w.open(arg)
                             li = 'open %s' % arg
                             if o.startswith('discarded'):
                                 nontriv = True
+                                # the whole id space was probed (MAX <= probes): refusing is right only if it is full
+                                if maxch <= probes and len(w.live()) < maxch:
+                                    ctx.violation('C06:open:refused-although-an-id-is-free',
+                                                  case=dict(kind='history', max=maxch, chani=chani, ops=rops + [li]),
+                                                  expected='a free id (only %d of %d in use)' % (len(w.live()), maxch),
+                                                  observed='arrival discarded', kind='history')
                         elif kind == 'close':
                             o = w.close(arg)
                             li = 'close %d' % arg
@@ -317,22 +336,29 @@ def run(ctx):
                             want = [(f['kind'], n) for n, f in owners]
                             if sorted(got) != sorted(want):
                                 ctx.violation('C06:frame:reached-wrong-flow',
-                                              case=dict(kind='history', max=maxch, chani=chani, ops=ops_upto(lines_in, li)),
+                                              case=dict(kind='history', max=maxch, chani=chani, ops=rops + [li]),
                                               expected='delivered to %r only' % (want,), observed=got, kind='history')
                     except Exception as e:  # noqa
                         ctx.violation('C06:%s:exception-%s' % (kind if kind != 'open' else 'open-' + arg, type(e).__name__),
-                                      case=dict(kind='history', max=maxch, chani=chani, ops=ops_upto(lines_in, '%s %s' % (kind, arg))),
+                                      case=dict(kind='history', max=maxch, chani=chani, ops=rops + ['%s %s' % (kind, arg)]),
                                       expected='arrival handled (flow opened or discarded)', observed=repr(e), kind='history')
                         lines_in.append('%s %s' % (kind, arg))
                         lines_out.append('exception %s' % type(e).__name__)
                         break
                     lines_in.append(li)
-                    lines_out.append('%s %s' % (o, w.table()))
+                    rops.append(li)
+                    lines_out.append(o)
+                    for c in w.swept:                 # predicted expiry sweep (harness's own bookkeeping)
+                        lines_in.append('close %d' % c)
+                        lines_out.append('closed')
+                        nontriv = True
+                    lines_in.append('table')
+                    lines_out.append(w.table())
                     # oracle: distinct non-zero ids
                     ids = [f['chan'] for f in w.live()]
                     if len(set(ids)) != len(ids) or any((not i) for i in ids):
                         ctx.violation('C06:history:ids-not-distinct',
-                                      case=dict(kind='history', max=maxch, chani=chani, ops=lines_in[1:]),
+                                      case=dict(kind='history', max=maxch, chani=chani, ops=list(rops)),
                                       expected='pairwise distinct non-zero ids', observed=ids, kind='history')
                         break
                     if w.mux.chani == 1 and len(lines_in) > 2:
@@ -354,7 +380,9 @@ def run(ctx):
             ops = []
             for _ in range(n):
                 r = rng.random()
-                if r < 0.5:
+                if r < 0.08:
+                    ops.append(('tick', rng.choice([1.0, 29.0, 30.0, 31.0, 61.0])))
+                elif r < 0.5:
                     ops.append(('open', rng.choice(['tcp', 'dns', 'udp'])))
                 elif r < 0.75:
                     ops.append(('close', rng.randrange(0, min(maxch, 12) + 2)))
@@ -421,10 +449,17 @@ def replay(ctx, rep):
         w = RealWorld(case['max'], case['chani'])
         try:
             for line in case['ops']:
+                if line == 'table':
+                    continue
                 k, a = line.split()
+                if k == 'tick':
+                    w.now += float(a)
+                    continue
                 try:
                     if k == 'open':
-                        w.open(a)
+                        o = w.open(a)
+                        if o.startswith('discarded') and case['max'] <= 1024 and len(w.live()) < case['max']:
+                            return True, 'arrival %r discarded with only %d of %d ids in use' % (line, len(w.live()), case['max'])
                     elif k == 'close':
                         w.close(int(a))
                     else:
@@ -437,6 +472,7 @@ def replay(ctx, rep):
                 ids = [f['chan'] for f in w.live()]
                 if len(set(ids)) != len(ids) or any((not i) for i in ids):
                     return True, 'ids %r' % ids
+
             return False, 'history ran; ids %r' % [f['chan'] for f in w.live()]
         finally:
             w.restore()
